@@ -13,8 +13,13 @@ from checks import arithcommon as A
 from checks import expsubscommon as E
 
 OBLIGATIONS = [
+    "C09/P_expand_sound.v",
+    "C09/P_expand_decides.v",
+    "C09/P_guarded_refines.v",
+    "C09/P_multinomial.v",
+    "C09/P_nonvacuous.v",
 ]
-REFUTATIONS = []
+REFUTATIONS = ["C09/P_refuted.v"]
 PROOF_MODULES = []   # compiled by hand until listed in coq/_CoqProject (see the report)
 
 BIG = 6000
@@ -62,6 +67,7 @@ def run(ctx):
         explore(ctx, drv, model, xs2, [E.gen_decides_pair(rng, 3) for _ in range(1500)], [], stats, search=True)
     ctx.cov["distinct_nontrivial"] = len(stats.get("nontrivial", ()))
     ctx.cov["inputs_in_polynomial_fragment"] = stats.get("poly_inputs", 0)
+    ctx.cov["inputs_satisfying_expand_guard"] = stats.get("guard_inputs", 0)
     ctx.cov["results_validated_by_extracted_expanded"] = stats.get("expanded_checked", 0)
     ctx.cov["decides_pairs"] = stats.get("dpairs", 0)
     ctx.cov["decides_pairs_equal"] = stats.get("dequal", 0)
@@ -157,12 +163,15 @@ def explore(ctx, drv, model, xs, ds, ms, stats, search=False):
         if not E.is_exn(rdump):
             flagq.append((deep, rec, line, edump, rdump))
     # the extracted specification predicates on the library's dumps
-    fouts = ctx.run_lines(model, ["xflags ;; " + r[4] for r in flagq] + ["xflags ;; " + r[3] for r in flagq], timeout=2400, shards=16)
+    fouts = ctx.run_lines(model, ["xflags ;; " + r[4] for r in flagq] + ["xflags ;; " + r[3] for r in flagq]
+                          + ["xguard ;; %s ;; %s" % (r[0], r[3]) for r in flagq], timeout=2400, shards=16)
     n = len(flagq)
     for i, (deep, rec, line, edump, rdump) in enumerate(flagq):
-        fr, fe = fouts[i], fouts[n + i]
+        fr, fe, fg = fouts[i], fouts[n + i], fouts[2 * n + i]
         if len(fe) == 4 and fe[1] == "1":
             stats["poly_inputs"] = stats.get("poly_inputs", 0) + 1
+        if fg.strip() == "1":
+            stats["guard_inputs"] = stats.get("guard_inputs", 0) + 1
         if len(fr) != 4 or fr[0] not in "01":
             ctx.broken.append({"kind": "correspondence", "name": "C09 xflags", "detail": "%s on %s" % (fr, rdump[:300])})
             continue
